@@ -67,6 +67,7 @@ class ChildInfo:
     effective_defeat: object
     n_arrays: int = 0
     loop: tuple | None = None     # innermost loop: (break label, continue label, ap at its restore point | None, loop_defeat value | None)
+    local_vars: dict | None = None   # variables in scope when the child is generated (block children)
 
 
 class VCodeGen(CodeGen):
@@ -95,7 +96,8 @@ class VCodeGen(CodeGen):
             info = self._register(kind='block', node=block, r_out=None, keep=False, stack=self.stack,
                                   effective_defeat=self.effective_defeat, n_arrays=len(self.allocated_arrays),
                                   loop=(li.break_label.label_name, li.continue_label.label_name,
-                                        getattr(self, 'v_loop_ap', None), getattr(self, 'v_loop_defeat', None)) if li else None)
+                                        getattr(self, 'v_loop_ap', None), getattr(self, 'v_loop_defeat', None)) if li else None,
+                                  local_vars=dict(self.local_vars))
             yield Opaque(info.ident)
             return
         yield from super().gen_block(block)
